@@ -285,3 +285,27 @@ def prune_cache(prefix, keep=3):
             os.remove(os.path.join(d, f))
     except OSError:
         pass
+
+
+def apalache(module, args, timeout=1500, tag=None, text=None):
+    """apalache-mc check on spec/<module>.tla (or on `text`, a variant of it written to a scratch file).
+    Returns {"ok": no error found, "violation": an invariant violation was reported, "out": tail of the output, "dt": s}."""
+    import shutil, tempfile
+    tag = tag or module
+    od = os.path.join(OUT, "apalache", f"{tag}-{os.getpid()}")
+    os.makedirs(od, exist_ok=True)
+    src = os.path.join(SPEC, module + ".tla")
+    try:
+        if text is not None:
+            os.makedirs(od + "-src", exist_ok=True)
+            src = os.path.join(od + "-src", module + ".tla")
+            open(src, "w").write(text)
+        rc, o, dt = run(["apalache-mc", "check", "--out-dir=" + od, "--write-intermediate=false"] + args + [src], timeout=timeout, cwd=SPEC)
+        ok = "The outcome is: NoError" in o
+        vio = "The outcome is: Error" in o and "invariant" in o and "violated" in o
+        if not ok and not vio:
+            raise ToolError(f"apalache-mc {module} {args}:\n" + o[-3000:])
+        return {"ok": ok, "violation": vio, "out": o[-1500:], "dt": round(dt, 1)}
+    finally:
+        shutil.rmtree(od, ignore_errors=True)
+        shutil.rmtree(od + "-src", ignore_errors=True)
